@@ -84,6 +84,8 @@ macro_rules! systems {
             "ds.heap" => sys_ds::HeapSys,
             "burst" => sys_burst::Sys,
             "burstscript" => sys_burst::Script,
+            "wakerseq" => sys_burst::WakerSeq,
+            "cycles" => sys_burst::Cycles,
             "mpmc.capscript.fix" => sys_capscript::Fix,
             "mpmc.capscript.grow" => sys_capscript::Grow,
             "mpmc.bigpayload" => sys_capscript::BigPayload,
